@@ -107,6 +107,28 @@ def cut(rnd, stream: bytes, maxcuts: int):
     return out
 
 
+def cut_at(stream: bytes, recs, spec):
+    """explicit read boundaries: spec = [[record index (negative: counted from the last record), offset inside that record (negative:
+    counted from its end)], ...]; entries that name no position strictly inside the stream are ignored"""
+    starts, p = [], 0
+    for r in recs:
+        starts.append(p)
+        p += len(r)
+    offs = set()
+    for ri, off in spec:
+        if not -len(recs) <= ri < len(recs):
+            continue
+        ri %= len(recs)
+        o = starts[ri] + (off if off >= 0 else len(recs[ri]) + off)
+        if 0 < o < len(stream):
+            offs.add(o)
+    out, p = [], 0
+    for c in sorted(offs) + [len(stream)]:
+        out.append(stream[p:c])
+        p = c
+    return out
+
+
 def items_for(reads, tagged):
     ends, pos = [], 0
     for rec, tag in tagged:
@@ -131,6 +153,7 @@ async def _drain():
 async def run_pump(loop: S.VLoop, c, mw_factory=None):
     """case keys: up, mw, handler (spec as in sim.srv), app (list of hex plaintext writes, one TLS record each),
     close_notify, plaintext (hex|None), cutseed, maxcuts, stall (None | [flight, keep_bytes_fraction]),
+    edgecuts (None | {"f1": spec, "s": spec}: explicit read boundaries of the first flight / of everything after it, see cut_at),
     cert (None|0|1|2), post (inner events after the reads: ["ua", resp] | ["ha", resp] | ["ma"] | ["md", line] | ["t"] | ["hst"])"""
     from nauyaca.server import protocol as sp
     from nauyaca.server.protocol import GeminiServerProtocol
@@ -210,11 +233,14 @@ async def run_pump(loop: S.VLoop, c, mw_factory=None):
     inb, outb = ssl.MemoryBIO(), ssl.MemoryBIO()
     so = cctx.wrap_bio(inb, outb, server_hostname="localhost")
     pevs: list[str] = []
+    readlens: list[int] = []
+    edge = c.get("edgecuts") or {}
 
     def feed(reads, tagged):
         for r, its in zip(reads, items_for(reads, tagged)):
             if tcp.closed:
                 break
+            readlens.append(len(r))
             try:
                 server.data_received(r)
             except Exception as e:  # noqa: BLE001
@@ -245,7 +271,7 @@ async def run_pump(loop: S.VLoop, c, mw_factory=None):
         inner = server.inner_protocol
         obs = {"plain": got.hex() or "-", "eof": eof, "tcpclosed": tcp.closed, "h": log["h"], "u": log["u"], "m": log["m"],
                "content": log["content"].hex() or "-", "mwargs": log["mwargs"], "order": log["order"], "exc": log["exc"], "pevs": pevs,
-               "after_close_writes": len(tcp.after), "inner": inner is not None}
+               "after_close_writes": len(tcp.after), "inner": inner is not None, "readlens": readlens}
         restore_wall()
         loop.set_exception_handler(lambda lp, cx: None)
         if inner is not None and getattr(inner, "timeout_handle", None):
@@ -287,7 +313,7 @@ async def run_pump(loop: S.VLoop, c, mw_factory=None):
         obs = finish()
         await _drain()
         return obs
-    feed(cut(rnd, f1, min(2, c.get("maxcuts", 0))), [(x, "h") for x in records(f1)])
+    feed(cut_at(f1, records(f1), edge["f1"]) if edge.get("f1") else cut(rnd, f1, min(2, c.get("maxcuts", 0))), [(x, "h") for x in records(f1)])
     to_client()
     try:
         so.do_handshake()
@@ -295,6 +321,12 @@ async def run_pump(loop: S.VLoop, c, mw_factory=None):
         pass
     f2 = outb.read()
     recs = [(x, "h") for x in records(f2)]
+    if not recs:
+        # the server did not answer the first flight (it dropped the connection): the client has nothing more to say
+        await _drain()
+        obs = finish()
+        await _drain()
+        return obs
     recs[-1] = (recs[-1][0], "H")
     if stall and stall[0] == 2:
         keep = int(len(f2) * stall[1])
@@ -325,7 +357,7 @@ async def run_pump(loop: S.VLoop, c, mw_factory=None):
         cn = outb.read()
         recs += [(x, "c") for x in records(cn)]
         stream += cn
-    feed(cut(rnd, stream, c.get("maxcuts", 0)), recs)
+    feed(cut_at(stream, [x for x, _ in recs], edge["s"]) if edge.get("s") else cut(rnd, stream, c.get("maxcuts", 0)), recs)
     await _drain()
     for e in c.get("post", []):
         k = e[0]
